@@ -398,14 +398,17 @@ def main():
             "branches": branches, "generator_histogram": meta.get("histogram", {}),
             "disagreements": len(disagree), "spec_failures_on_impl": len(spec_fail),
             "known_findings_seen": sorted(seen_known),
-            "exhaustive": bool(meta.get("exhaustive", False)), "exhaustive_note": meta.get("exhaustive_note", ""),
+            # `exhaustive` is only claimed when the harness says the WHOLE case space of this run was a finite space
+            # enumerated completely; sub-spaces that were enumerated completely are named separately
+            "exhaustive": bool(meta.get("exhaustive_all", False)),
+            "exhaustively_enumerated_subspaces": meta.get("exhaustive_note", "") if meta.get("exhaustive") else "",
             "samples": samples,
         },
         "assumptions": cfg.get("assumptions", []),
         "wall_s": round(time.time() - t0, 2), "violations": violations,
     }
     for k, v in meta.items():
-        if k not in ("histogram", "cases", "exhaustive", "exhaustive_note"):
+        if k not in ("histogram", "cases", "exhaustive", "exhaustive_note", "exhaustive_all"):
             ev["coverage"]["harness_" + k] = v
     json.dump(ev, open(os.path.join(VERIF, "evidence", pid + ".json"), "w"), indent=1)
     for l in out_lines:
